@@ -628,7 +628,7 @@ fn main() {
                     cases.push(gen_shared_family(&mut rng));
                     continue;
                 }
-                if !is06 && rng.chance(1, 4) {
+                if !is06 && rng.chance(1, 3) {
                     cases.push(gen_bound_rec_family(&mut rng));
                     continue;
                 }
